@@ -217,7 +217,8 @@ def table_units():
 
 def units():
     from . import finder
-    return table_units() + finder.units() + [
+    from . import c09infer
+    return table_units() + finder.units() + c09infer.units() + [
         LeanUnit("lemma:L-CHAOTIC", "lemmas/LChaotic.lean", ["chaotic_unique"])]
 
 
